@@ -182,6 +182,10 @@ func (b *Builder) addLengthPrefixed(lenLen int, isASN1 bool, f BuilderContinuati
 
 	offset := len(b.result)
 	b.add(make([]byte, lenLen)...)
+	if b.err != nil {
+		// No room for the length prefix in a fixed-size Builder.
+		return
+	}
 
 	if b.inContinuation == nil {
 		b.inContinuation = new(bool)
